@@ -3,6 +3,9 @@ package vc
 import (
 	"fmt"
 	"math/big"
+	"os"
+	"os/exec"
+	"path/filepath"
 	"strings"
 )
 
@@ -154,6 +157,71 @@ func buildC03Case(fn *irFunc) *c02Case {
 			return c
 		}
 		c.queries = append(c.queries, c02Query{"args", pre() + fmt.Sprintf("(assert (not (and %s (not %s) (not %s))))\n(check-sat)\n(get-model)\n", strings.Join(conds, " "), orS(fires...), ubAny)})
+	case "clslice":
+		// clslice__arrptr__<T>__<ij|i|j|ijk|full>: p[i:j] on p *[10]int64, compiled from Go source by cl
+		t, ok := goIntTypeOf(parts[2])
+		c.fnName = "cl.compileInstrOrValue(*ssa.Slice)"
+		c.oblig = fmt.Sprintf("cl.Slice/nil-check+args[container=%s,idx=%s,form=%s]", parts[1], parts[2], parts[3])
+		if !ok {
+			c.skip = "unknown index type"
+			return c
+		}
+		if c.skip != "" {
+			return c
+		}
+		if len(fn.params) == 0 || irWidth(fn.params[0]) != 64 {
+			c.skip = "first parameter is not a pointer"
+			return c
+		}
+		i64 := goIntType{"int", 64, true}
+		ten := "(_ bv10 64)"
+		wantI, wantJ, wantK := "(_ bv0 64)", ten, ten
+		switch parts[3] {
+		case "ij":
+			wantI, wantJ = goConvert(t, i64, "a1"), goConvert(t, i64, "a2")
+		case "i":
+			wantI = goConvert(t, i64, "a1")
+		case "j":
+			wantJ = goConvert(t, i64, "a1")
+		case "ijk":
+			wantI, wantJ, wantK = goConvert(t, i64, "a1"), goConvert(t, i64, "a2"), goConvert(t, i64, "a3")
+		case "full":
+		default:
+			c.skip = "unknown slice form"
+			return c
+		}
+		nilFires := orS(ev.panic["AssertNilDeref"]...)
+		var others []string
+		for k, v := range ev.panic {
+			if k != "AssertNilDeref" {
+				others = append(others, v...)
+			}
+		}
+		// Go: slicing a nil *array panics (nil dereference) at the slice expression, whatever the indices;
+		// a non-nil pointer never does (the bounds are the runtime function's business).
+		c.queries = append(c.queries, c02Query{"nil-check", pre() + fmt.Sprintf("(assert (not (and (= %s (= a0 (_ bv0 64))) (not %s) (not %s))))\n(check-sat)\n(get-model)\n", nilFires, orS(others...), ubAny)})
+		if parts[3] != "full" {
+			var conds []string
+			found := false
+			for _, call := range ev.calls {
+				if call.name == "NewSlice3" && len(call.args) == 6 {
+					found = true
+					conds = append(conds,
+						fmt.Sprintf("(= %s a0)", call.args[0].t),
+						fmt.Sprintf("(= %s (_ bv8 64))", call.args[1].t),
+						fmt.Sprintf("(= %s %s)", call.args[2].t, ten),
+						fmt.Sprintf("(= %s %s)", call.args[3].t, wantI),
+						fmt.Sprintf("(= %s %s)", call.args[4].t, wantJ),
+						fmt.Sprintf("(= %s %s)", call.args[5].t, wantK),
+						"(not "+orS(call.args[3].poison, call.args[4].poison, call.args[5].poison)+")")
+				}
+			}
+			if !found {
+				c.skip = "no call of runtime.NewSlice3 in the emitted code"
+				return c
+			}
+			c.queries = append(c.queries, c02Query{"args", pre() + fmt.Sprintf("(assert (not (and %s)))\n(check-sat)\n(get-model)\n", strings.Join(conds, " "))})
+		}
 	case "makeslice":
 		// makeslice__slice__<T>__lc: make([]int64, len, cap) with len and cap of type T
 		t, ok := goIntTypeOf(parts[2])
@@ -193,7 +261,7 @@ func buildC03Case(fn *irFunc) *c02Case {
 }
 
 func c03CompilerGoals(ck *Checker, rep *Report, opts *Options) []*Goal {
-	if opts.OnlyFn != "" && !strings.Contains("ssa.Builder.IndexAddr Index Slice ssa.Builder.TypeAssert ssa.Builder.MakeSlice", opts.OnlyFn) {
+	if opts.OnlyFn != "" && !strings.Contains("ssa.Builder.IndexAddr Index Slice ssa.Builder.TypeAssert ssa.Builder.MakeSlice cl.compileInstrOrValue(*ssa.Slice)", opts.OnlyFn) {
 		return nil
 	}
 	text, err := RunC02Harness(opts, "c03_emit_test.go", "c03")
@@ -223,7 +291,12 @@ func c03CompilerGoals(ck *Checker, rep *Report, opts *Options) []*Goal {
 			continue
 		}
 		for _, q := range c.queries {
-			goals = append(goals, &Goal{Oblig: c.oblig, Fn: c.fnName, Goal: False, Expect: "unsat", Detail: fn.name + "/" + q.suffix, Raw: q.smt})
+			g := &Goal{Oblig: c.oblig, Fn: c.fnName, Goal: False, Expect: "unsat", Detail: fn.name + "/" + q.suffix, Raw: q.smt}
+			if strings.HasPrefix(fn.name, "clslice__") && q.suffix == "nil-check" {
+				fn := fn
+				g.Replay = func(model string, o *Options) (map[string]interface{}, bool) { return c03ClSliceReplay(fn, model, o) }
+			}
+			goals = append(goals, g)
 		}
 	}
 	rep.Extra["compiler_side_cases"] = n
@@ -232,4 +305,116 @@ func c03CompilerGoals(ck *Checker, rep *Report, opts *Options) []*Goal {
 		rep.Broken = append(rep.Broken, fmt.Sprintf("C03 emission harness produced only %d cases", n))
 	}
 	return goals
+}
+
+// c03ClSliceReplay runs the emitted code of one clslice case under lli at the
+// model's operands (run-time functions replaced by printing stubs) and the same
+// Go slice expression under the host toolchain; confirmed when exactly one of
+// the two raises the nil-dereference panic.
+func c03ClSliceReplay(fn *irFunc, model string, opts *Options) (map[string]interface{}, bool) {
+	parts := strings.Split(fn.name, "__")
+	if len(parts) != 4 {
+		return nil, false
+	}
+	t, ok := goIntTypeOf(parts[2])
+	if !ok {
+		return nil, false
+	}
+	doc := map[string]interface{}{"case": fn.name, "emitted_ir": fn.text}
+	mv := modelValues(model)
+	val := func(name string) *big.Int {
+		if s, ok := mv[name]; ok && s.list == nil {
+			if v, ok := rpBvLit(s.atom); ok {
+				return v
+			}
+		}
+		return big.NewInt(0)
+	}
+	isNil := val("a0").Sign() == 0
+	dir := filepath.Join(opts.Scratch, "c03", "replay-"+mangle(fn.name))
+	os.MkdirAll(dir, 0o755)
+	const rt = "github.com/goplus/llgo/runtime/internal/runtime."
+	var ll strings.Builder
+	ll.WriteString("%\"" + rt + "Slice\" = type { i8*, i64, i64 }\n")
+	ll.WriteString("declare i32 @printf(i8*, ...)\ndeclare void @exit(i32)\n@arr = global [10 x i64] zeroinitializer\n")
+	ll.WriteString("@pan = private constant [10 x i8] c\"NILPANIC\\0A\\00\"\n@idx = private constant [12 x i8] c\"INDEXPANIC\\0A\\00\"\n@ns3 = private constant [40 x i8] c\"NewSlice3 nilbase=%d lo=%lld hi=%lld\\0A\\00\\00\\00\"\n")
+	ll.WriteString("define void @\"" + rt + "AssertNilDeref\"(i1 %c) {\n  br i1 %c, label %p, label %ok\np:\n  %1 = call i32 (i8*, ...) @printf(i8* getelementptr inbounds ([10 x i8], [10 x i8]* @pan, i32 0, i32 0))\n  call void @exit(i32 0)\n  unreachable\nok:\n  ret void\n}\n")
+	ll.WriteString("define void @\"" + rt + "AssertIndexRange\"(i1 %c) {\n  br i1 %c, label %p, label %ok\np:\n  %1 = call i32 (i8*, ...) @printf(i8* getelementptr inbounds ([12 x i8], [12 x i8]* @idx, i32 0, i32 0))\n  call void @exit(i32 0)\n  unreachable\nok:\n  ret void\n}\n")
+	ll.WriteString("define %\"" + rt + "Slice\" @\"" + rt + "NewSlice3\"(i8* %b, i64 %e, i64 %c, i64 %lo, i64 %hi, i64 %mx) {\n  %n = icmp eq i8* %b, null\n  %nz = zext i1 %n to i32\n  %1 = call i32 (i8*, ...) @printf(i8* getelementptr inbounds ([40 x i8], [40 x i8]* @ns3, i32 0, i32 0), i32 %nz, i64 %lo, i64 %hi)\n  ret %\"" + rt + "Slice\" undef\n}\n")
+	ll.WriteString(strings.ReplaceAll(fn.text, "[10 x i64]*", "i8*"))
+	base := "i8* bitcast ([10 x i64]* @arr to i8*)"
+	if isNil {
+		base = "i8* null"
+	}
+	args := []string{base}
+	var goArgs []string
+	for i := 1; i < len(fn.params); i++ {
+		v := val(fmt.Sprintf("a%d", i))
+		args = append(args, fmt.Sprintf("%s %s", fn.params[i], v.String()))
+		x := new(big.Int).Set(v)
+		if t.signed && x.Bit(t.w-1) == 1 {
+			x.Sub(x, new(big.Int).Lsh(big.NewInt(1), uint(t.w)))
+		}
+		goArgs = append(goArgs, x.String())
+	}
+	fmt.Fprintf(&ll, "define i32 @main() {\n  %%r = call %%\"%sSlice\" @\"%s\"(%s)\n  ret i32 0\n}\n", rt, fn.name, strings.Join(args, ", "))
+	doc["operands"] = args
+	llFile := filepath.Join(dir, "case.ll")
+	os.WriteFile(llFile, []byte(ll.String()), 0o644)
+	out, err := exec.Command("lli-14", llFile).CombinedOutput()
+	got := strings.TrimSpace(string(out))
+	if err != nil {
+		doc["error"] = "lli: " + err.Error() + " " + truncate(got, 500)
+		return doc, false
+	}
+	if got == "" {
+		got = "returned without calling a run-time function"
+	}
+	doc["emitted_code_result"] = got
+	// the same slice expression under the host Go toolchain
+	var expr string
+	switch parts[3] {
+	case "ij":
+		expr = "p[i0:i1]"
+	case "i":
+		expr = "p[i0:]"
+	case "j":
+		expr = "p[:i0]"
+	case "ijk":
+		expr = "p[i0:i1:i2]"
+	case "full":
+		expr = "p[:]"
+	default:
+		return nil, false
+	}
+	var gs strings.Builder
+	gs.WriteString("package main\n\nimport \"fmt\"\n\nvar arr [10]int64\n\nfunc main() {\n\tdefer func() {\n\t\tif e := recover(); e != nil {\n\t\t\tfmt.Println(\"PANIC:\", e)\n\t\t}\n\t}()\n")
+	if isNil {
+		gs.WriteString("\tvar p *[10]int64\n")
+	} else {
+		gs.WriteString("\tp := &arr\n")
+	}
+	for i, a := range goArgs {
+		fmt.Fprintf(&gs, "\tvar i%d %s = %s\n", i, parts[2], a)
+	}
+	fmt.Fprintf(&gs, "\ts := %s\n\tfmt.Println(\"no panic, len\", len(s), \"cap\", cap(s))\n}\n", expr)
+	os.WriteFile(filepath.Join(dir, "main.go"), []byte(gs.String()), 0o644)
+	doc["go_program"] = gs.String()
+	goBin := os.Getenv("GO")
+	if goBin == "" {
+		goBin = "go"
+	}
+	cmd := exec.Command(goBin, "run", "main.go")
+	cmd.Dir = dir
+	cmd.Env = append(os.Environ(), "GOFLAGS=-mod=mod", "GO111MODULE=off")
+	gout, gerr := cmd.CombinedOutput()
+	want := strings.TrimSpace(string(gout))
+	if gerr != nil {
+		doc["error"] = "go run: " + gerr.Error() + " " + truncate(want, 500)
+		return doc, false
+	}
+	doc["go_result"] = want
+	goNil := strings.Contains(want, "nil pointer dereference")
+	llNil := strings.Contains(got, "NILPANIC")
+	return doc, goNil != llNil
 }
